@@ -34,13 +34,13 @@ type enumC16Loop struct {
 
 func checkC16Loop(e enumC16Loop, o *vcore.Obs) error {
 	env := lm.New(64<<20, 24)
-	defer env.Close()
 	b := fault.NewBucket()
 	conf := BaseConfig("a")
 	conf.MemoryDecompressedSnapshots = e.Limit
 	conf.MemoryDownloadedSnapshots = e.Limit
 	lc := config.LMDB{SchemaTracksChanges: e.Native}
 	nd := NewNode("a", env, b.Handle("a"), conf, lc, syncer.Options{})
+	defer nd.CloseEnv()
 	defer nd.Forget()
 	defer nd.Stop()
 	y, err := nd.Start()
@@ -90,8 +90,15 @@ func checkC16Loop(e enumC16Loop, o *vcore.Obs) error {
 	}
 	// runs the loop until cond holds (bounded); the receiver polls every millisecond in the background
 	runUntil := func(what string, cond func() bool) error {
-		deadline := time.Now().Add(8 * time.Second)
-		for time.Now().Before(deadline) {
+		b0, t0 := beats.Load(), time.Now()
+		for {
+			if el := time.Since(t0); el > 8*time.Second {
+				// (8 s of time in which this process was actually running: see WaitFor)
+				if float64(beats.Load()-b0) >= 0.6*float64(el/time.Millisecond)/1.2 || el > 10*time.Minute {
+					break
+				}
+				b0, t0 = beats.Load(), time.Now()
+			}
 			for i := 0; i < 14; i++ {
 				if y.Done {
 					return fmt.Errorf("sync loop ended: %v", y.Err)
